@@ -93,13 +93,17 @@ def run_case(c):
         kw0 = {"input_bases": np.array([["Z", "Z"] if k % 2 == 0 else ["X", "Y"] for k in range(N)]).reshape(N, n)} if t != "positive" else {}
         state.fit(torch.tensor([R.index_to_row(k % 4, n) if k % 2 == 0 else [0, 0] for k in range(N)], dtype=torch.double), epochs=1, pos_batch_size=B, lr=0.1, **kw0)
     data = torch.tensor([R.index_to_row(k % 4, n) if k % 2 == 0 else [0, 0] for k in range(N)], dtype=torch.double)   # rotated rows: outcome 00
-    bases = np.array([["Z", "Z"] if k % 2 == 0 else ["X", "Y"] for k in range(N)]).reshape(N, n)
+    bases = np.array([["Z", "Z"] if (k % 2 == 0 or c.get("all_z")) else ["X", "Y"] for k in range(N)]).reshape(N, n)    # all_z: every row measured in the reference basis
     trace = []
     counter = [0]
     inject = c.get("inject")
 
+    order = []        # who was reached at each epoch end, library callbacks included (the evaluator's metric function reports itself as "M")
+
     def rec(cb_id, ev, s, e=None, b=None):
         trace.append((ev, e, b, cb_id, phash(s), s.stop_training))
+        if ev == "EE":
+            order.append(cb_id)
         if inject is not None and counter[0] == inject:
             s.stop_training = True
         counter[0] += 1
@@ -145,7 +149,7 @@ def run_case(c):
         h0 = phash(state)
     if c.get("lib_cbs") and form != "nested_shared":
         from qucumber.callbacks import EarlyStopping, MetricEvaluator
-        ev_ = MetricEvaluator(1, {"m": lambda s_, **kw_: 1.0})
+        ev_ = MetricEvaluator(1, {"m": lambda s_, **kw_: (order.append("M"), 1.0)[1]})
         lib = [ev_, EarlyStopping(1, 0.0, 1, ev_, "m")]
         pos = {"first": 0, "last": len(cbs), "middle": len(cbs) // 2}[c["lib_cbs"]]
         mixed = list(cbs[:pos]) + lib + list(cbs[pos:])
@@ -158,6 +162,12 @@ def run_case(c):
     if t != "positive":
         kw["input_bases"] = bases
     state.fit(data, **kw)
+    if c.get("lib_cbs") and form != "nested_shared":
+        # callbacks are reached in the order of the caller's list, whatever their kind: the library's evaluator sits where it was listed
+        pattern = list(range(pos)) + ["M"] + list(range(pos, len(cbs)))
+        nfull = len(order) // len(pattern)
+        require(order == pattern * nfull, "dispatch:library-callback-order",
+                f"at an epoch end the callbacks were not reached in list order (evaluator listed at position {pos} of {len(cbs) + 2}): {order[:2 * len(pattern)]} instead of repetitions of {pattern}")
     return state, trace, h0
 
 
@@ -233,7 +243,7 @@ def sampled(draw, tier):
          "cb_form": draw(st.sampled_from(["list", "list", "tuple", "nested_shared"])), "fits": draw(st.sampled_from([1, 1, 1, 2, 3])),
          # other features used in the same run: a learning-rate scheduler; the library's own evaluator + convergence monitor (tolerance 0:
          # never converges, never requests a stop) somewhere in the callback list
-         "sched": draw(st.booleans()), "lib_cbs": draw(st.sampled_from([None, None, "first", "last", "middle"]))}
+         "sched": draw(st.booleans()), "lib_cbs": draw(st.sampled_from([None, None, "first", "last", "middle"])), "all_z": draw(st.integers(0, 3)) == 0}
     if draw(st.integers(0, 29)) == 0:
         c.update(N=draw(st.integers(1025, 1300)), B=draw(st.sampled_from([400, 500, 1000])), E=c["se"] + draw(st.integers(1, 2)))     # a large data set
     mode = draw(st.sampled_from(["none", "preset", "inject", "inject", "inject"]))
